@@ -485,7 +485,7 @@ def run(ctx):
     for i in range(ctx.scale(8000, 400000)):
         if ctx.out_of_time():
             break
-        dom = rng.choice(["int", "str", "bytes", "list", "dict", "obj", "exc", "lstr"])
+        dom = rng.choice(["int", "str", "bytes", "list", "dict", "obj", "exc", "lstr", "path"])
         e = G.random_expr(rng, dom, rng.randint(0, 2))
         vals = G.domain_values(dom, e)
         if not vals:
